@@ -866,15 +866,19 @@ func (fc *FnCtx) appendOp(st *State, instr ssa.CallInstruction, c *ssa.CallCommo
 		// prefix preserved
 		vc.assume(st, fmt.Sprintf("(forall ((%s Int)) (=> (and (<= 0 %s) (< %s %s)) (= (select %s (+ %s %s)) (select %s (+ %s %s)))))",
 			j, j, j, s.ln(), na, res.off(), j, srcS, s.off(), j))
-		// appended elements (same index shape as the prefix fact so that one
-		// trigger serves both)
+		// appended elements
 		if isNum(n) && numVal(n).IsInt64() && numVal(n).Int64() <= 4 {
 			for k := int64(0); k < numVal(n).Int64(); k++ {
-				vc.assume(st, mkEq(mkSel(na, mkAdd(res.off(), mkAdd(s.ln(), num(k)))), mkSel(srcT, mkAdd(t.off(), num(k)))))
+				vc.assume(st, mkEq(mkSel(na, mkAdd(mkAdd(res.off(), s.ln()), num(k))), mkSel(srcT, mkAdd(t.off(), num(k)))))
 			}
+		} else {
+			// indexed from the destination side (same trigger shape as the prefix fact) ...
+			vc.assume(st, fmt.Sprintf("(forall ((%s Int)) (=> (and (<= %s %s) (< %s %s)) (= (select %s (+ %s %s)) (select %s (+ %s (- %s %s))))))",
+				j, s.ln(), j, j, newLen, na, res.off(), j, srcT, t.off(), j, s.ln()))
+			// ... and from the source side (trigger on the source read)
+			vc.assume(st, fmt.Sprintf("(forall ((%s Int)) (=> (and (<= 0 %s) (< %s %s)) (= (select %s (+ (+ %s %s) %s)) (select %s (+ %s %s)))))",
+				j, j, j, n, na, res.off(), s.ln(), j, srcT, t.off(), j))
 		}
-		vc.assume(st, fmt.Sprintf("(forall ((%s Int)) (=> (and (<= %s %s) (< %s %s)) (= (select %s (+ %s %s)) (select %s (+ %s (- %s %s))))))",
-			j, s.ln(), j, j, newLen, na, res.off(), j, srcT, t.off(), j, s.ln()))
 		// in place: everything outside the appended window is unchanged
 		vc.assume(st, mkImp(inplace, fmt.Sprintf("(forall ((%s Int)) (=> (or (< %s (+ %s %s)) (>= %s (+ %s %s))) (= (select %s %s) (select %s %s))))",
 			j, j, s.off(), s.ln(), j, s.off(), newLen, na, j, srcS, j)))
